@@ -100,9 +100,9 @@ func checkReport(e error) string {
 }
 
 func runC15(c *core.Ctx, r *core.Result) {
-	p := plan{fullDepth: 3, coreDepth: 4, strDepth: 1, alphabet: tm.REG}
+	p := plan{fullDepth: 3, coreDepth: 4, strDepth: 2, alphabet: c15Alphabet}
 	if c.Thorough() {
-		p = plan{fullDepth: 4, coreDepth: 5, strDepth: 2, alphabet: tm.REG}
+		p = plan{fullDepth: 4, coreDepth: 5, strDepth: 2, alphabet: c15Alphabet}
 	}
 	r.Bounds = p.String() + "; local, after hop_K and hop_K^2 (stacks re-parsed from text), and decoded at a process that knows no type"
 	r.Rule = "state = (term, stage); non-trivial = the error has >= 2 layers and either >= 1 stack trace or a multi-cause node; outcome = (#layers, #stacks) class"
@@ -147,3 +147,7 @@ func runC15(c *core.Ctx, r *core.Result) {
 		}
 	})
 }
+
+// c15Alphabet: regular strings plus newlines at the boundaries (the report
+// keeps "the first line" of several strings) and printf verbs.
+var c15Alphabet = append(append([]string{}, tm.REG...), "\nx", "x\n", "a\n\nb", "", "50%", "%s%d%v")
